@@ -3,7 +3,7 @@ import binascii
 from .common import Check, correspond, canon
 from . import posix_oracle as PO
 
-THEOREMS = {'C16': []}
+THEOREMS = {'C16': ['Cctz.C16.parse_iff', 'Cctz.C16.parse_determined', 'Cctz.C16.defaults', 'Cctz.C16.colon_after_seconds_example']}
 
 
 def hx(b):
